@@ -206,3 +206,13 @@ Proof.
   - eexists _, _, _. split; [vm_compute; reflexivity|]. split; [reflexivity|]. split; [reflexivity|].
     vm_compute. reflexivity.
 Qed.
+
+(* the V1 frame-size limit at its boundary: 14 + 61426 = 61440 bytes are emitted, one byte more
+   is refused without a write (computed by the model; the 8 MiB boundary of V2 is covered by
+   c01_within_limit_ok_v2 and exercised on the code by the harness) *)
+Example c01_limit_boundary_v1 :
+  let pk n := mkPacket 1%Z 2 0 0%Z 0 [] (BBytes (repeat 7 (N.to_nat n))) in
+  w_ret (write_v1 ex_enc ex_zip 16777216 false (pk 61426)) = Some 61440
+  /\ w_ret (write_v1 ex_enc ex_zip 16777216 false (pk 61427)) = None
+  /\ w_writes (write_v1 ex_enc ex_zip 16777216 false (pk 61427)) = [].
+Proof. repeat split; vm_compute; reflexivity. Qed.
